@@ -188,6 +188,7 @@ bool Hist::opSelfParam() {
     if (rng.chance(65) && prev.groups.size() < 127) target = freshName("Cpy", gnames);
     else { target = gnames[rng.below(gnames.size())]; std::string ut = target; for (size_t i = 0; i < ut.size(); ++i) ut[i] = (char)toupper((unsigned char)ut[i]);
         if (ut == "POINT" || ut == "ANALOG") for (size_t k = 0; k < sizeof managed / sizeof managed[0]; ++k) if (sp.name == managed[k]) return false; }
+    { int tg = prev.findGroup(target); if (tg >= 0) for (size_t q = 0; q < prev.groups[tg].params.size(); ++q) { const std::string& en = prev.groups[tg].params[q].name; if (en != sp.name && upperS(en) == upperS(sp.name)) return false; } }   /* two names equal but for case are not representable in a file */
     if (sp.name.empty() || sp.type == ezc3d::NONE || sp.name == "DATA_START") return false;   /* (the writer treats ANY parameter named DATA_START as the data pointer; observation in DESIGN 9) */
     log.pre("parameter", "self"); Outcome oc; VF_TRY(oc, obj->parameter(target, obj->parameters().group(g).parameter(pi)));
     log.ev("self_param", "from=\"" + esc(prev.groups[g].name) + ":" + esc(sp.name) + "\" into=\"" + esc(target) + "\"" + (prev.findGroup(target) < 0 ? "(new)" : ""), oc); bump("op:self_param");
